@@ -91,6 +91,9 @@ def dispatch_ok(value: T, pc, evs: T) -> bool:
                 # handlers.get(trace_codes.get(id)) is not None: the registry's keys are strings (registry.load_all accepts
                 # nothing else), so the name is not None either, i.e. the id is in the table
                 in_table = in_table or (found and nkind == "get")
+            if nkind == "get" and render.assume_lookup(a, T("cmp", ("in", name, H))) is True:
+                # `trace_codes.get(id) in handlers`: None is not a key of the registry, so the id is in the table as well
+                in_table = True
             return in_table and decodable
     return False
 
@@ -294,6 +297,11 @@ def check(repo: Repo, run: Run) -> None:
             if sym.root_of(pth) != st:
                 continue
             if e.kind == "sub-store":
+                if e.value.op == "call" and e.value.a[0].op in ("class", "global", "builtin") and e.value.a[0] not in (
+                        T("builtin", ("list",)), T("builtin", ("dict",))):
+                    # a freshly constructed container of another kind (a dict subclass with its own methods, a defaultdict ...)
+                    raise AnalysisError(f"{name} stores {sym.pretty(e.value)[:60]} into the window table: a representation of the "
+                                        f"open windows other than the {{tid: {{eventid: [records]}}}} tables the K rules are written for")
                 if e.value.op == "new":
                     raise AnalysisError(f"{name} stores an object of {e.value.a[0].rsplit('.', 1)[1]} into the window table: a "
                                         f"representation of the open windows other than the {{tid: {{eventid: [records]}}}} tables "
